@@ -9,7 +9,7 @@ import signal
 from .common import NCPU
 
 
-class _Timeout(Exception):
+class _Timeout(BaseException):  # must not be swallowed by "except Exception" in oracles
     pass
 
 
@@ -59,7 +59,8 @@ def candidates(p, mod):
                 out.append(("partial_eval", str(kw), lambda kw=kw: p.partial_eval(**kw), {"fixed": kw}))
     # positional partial_eval
     if ctl and not pa.args[0].type.is_numeric():
-        out.append(("partial_eval", "positional(2)", lambda: p.partial_eval(2), {"fixed": {str(pa.args[0].name): 2}}))
+        v0 = vals(pa.args[0])[-1]
+        out.append(("partial_eval", f"positional({v0})", lambda: p.partial_eval(v0), {"fixed": {str(pa.args[0].name): v0}}))
     # transpose of every 2-D argument
     for j, a in enumerate(pa.args):
         if a.type.is_numeric() and len(a.type.shape()) == 2:
